@@ -201,7 +201,7 @@ type c20Mismatch struct {
 }
 
 type c20ThreadStats struct {
-	calls, probesOfEarlier, ctxCalls, changedNodeCalls, errors int
+	calls, probesOfEarlier, ctxCalls, changedNodeCalls, errors, badNameCalls int
 }
 
 func c20BuildNode(s gen.JSNodeSpec) *idr.Node {
@@ -307,12 +307,18 @@ func c20RunThread(ti int, th gen.JSThread) (*c20Mismatch, c20ThreadStats) {
 			}
 		}
 		want := c20Fresh(c.Script, c.Args, nodeJSON)
+		flat := c20FlatArgs(c.Args)
+		if c.BadName > 0 && 2*(c.BadName-1) < len(flat) {
+			flat[2*(c.BadName-1)] = 7 // not a string: the call is ill-formed and must fail as a whole
+			want = c20Outcome{Err: true, ErrText: "argument name is not a string"}
+			st.badNameCalls++
+		}
 		var got interface{}
 		var err error
 		if c.Ctx {
-			got, err = v21.JavaScriptWithContext(nil, node, c.Script, c20FlatArgs(c.Args)...)
+			got, err = v21.JavaScriptWithContext(nil, node, c.Script, flat...)
 		} else {
-			got, err = v21.JavaScript(nil, c.Script, c20FlatArgs(c.Args)...)
+			got, err = v21.JavaScript(nil, c.Script, flat...)
 		}
 		gotJSON := ""
 		if err == nil {
@@ -415,6 +421,7 @@ func c20CheckThreads(c c20Case) obs.Result {
 		tot.ctxCalls += s.ctxCalls
 		tot.changedNodeCalls += s.changedNodeCalls
 		tot.errors += s.errors
+		tot.badNameCalls += s.badNameCalls
 	}
 	classes := []string{"mode=" + c.Mode}
 	if c.Mode == "conc" {
@@ -431,6 +438,9 @@ func c20CheckThreads(c c20Case) obs.Result {
 	}
 	if tot.errors > 0 {
 		classes = append(classes, "error-result")
+	}
+	if tot.badNameCalls > 0 {
+		classes = append(classes, "ill-formed-argument-list")
 	}
 	nonTrivial := tot.probesOfEarlier > 0 || tot.changedNodeCalls > 0
 	// verdict: the first mismatch in (goroutine, call) order; an unknown one wins over a known one
